@@ -46,46 +46,93 @@ def rule_temporal(ctx):
     rets = [s for s in flow.stmts if isinstance(s, ast.Return)]
     if len(rets) != 1 or not isinstance(rets[0].value, ast.Tuple) or len(rets[0].value.elts) != 2:
         raise AnalysisError("_temporal_check does not return (mask, intervals)")
-    mask_e = flow.resolve(rets[0].value.elts[0], at=rets[0], depth=1)
-    iv_e = rets[0].value.elts[1]
-    ivname = None
-    for s in flow.stmts:
-        if isinstance(s, ast.Assign) and calls_in(s.value, "_get_intervals") and isinstance(s.targets[0], ast.Name):
-            ivname = s.targets[0].id
-            c = calls_in(s.value, "_get_intervals")[0]
-            argok = [norm(a) for a in c.args] in ([pt, st_], [st_, pt])
-    if ivname is None:
-        raise AnalysisError("_temporal_check: intervals not computed by _get_intervals")
-    # unit wrappers of the threshold are the identity on the time axis
     from ..core import clone as _clone
+    gi = ctx.func(COL, "Collocator._get_intervals")
+    gi_ret = [s for s in gi.body if isinstance(s, ast.Return)]
+    if len(gi.body) != 1 or len(gi_ret) != 1 or len(gi.params) != 2:
+        raise AnalysisError("_get_intervals is not a single return expression of two times")
+
+    class _Inline(ast.NodeTransformer):
+        """self._get_intervals(a, b) -> its return expression"""
+        seen = []
+
+        def visit_Call(self, n):
+            n = self.generic_visit(n)
+            if (dotted(n.func) or "").split(".")[-1] == "_get_intervals" and len(n.args) == 2 and not n.keywords:
+                from ..normalize import _Subst
+                self.seen.append([str(norm(a)) for a in n.args])
+                return _Subst(dict(zip(gi.params, n.args))).visit(_clone(gi_ret[0].value))
+            return n
+    inl = _Inline()
+    inl.seen = []
+    mask_ret = rets[0].value.elts[0]
+    mask_e = flow.resolve(mask_ret, at=rets[0], depth=1)
+    mask_full = ast.fix_missing_locations(inl.visit(_clone(flow.resolve(mask_ret, at=rets[0], depth=4))))
+    iv_e = rets[0].value.elts[1]
+    stop = (mask_ret.id,) if isinstance(mask_ret, ast.Name) else ()
+    iv_full = ast.fix_missing_locations(inl.visit(_clone(flow.resolve(iv_e, at=rets[0], depth=4, stop=stop))))
+    argok = all(sorted(x) == sorted([pt, st_]) for x in inl.seen)
+    # unit wrappers of the threshold and the cast of the differences are the identity on the (order model of the) time axis
 
     class _Unwrap(ast.NodeTransformer):
         def visit_Call(self, n):
             n = self.generic_visit(n)
             if isinstance(n.func, ast.Attribute) and n.func.attr in ("to_timedelta64", "to_numpy", "to_pytimedelta") and not n.args:
                 return n.func.value
+            if isinstance(n.func, ast.Attribute) and n.func.attr == "astype" and len(n.args) == 1 and isinstance(n.args[0], ast.Constant) \
+                    and str(n.args[0].value).startswith("timedelta64"):
+                return n.func.value
             if (dotted(n.func) or "").split(".")[-1] in ("Timedelta", "timedelta64", "to_timedelta") and len(n.args) == 1:
                 return n.args[0]
             return n
-    mask_u = ast.fix_missing_locations(_Unwrap().visit(_clone(mask_e)))
-    uses_iv = any(isinstance(n_, ast.Name) and n_.id == ivname for n_ in ast.walk(mask_u))
+    mask_u = ast.fix_missing_locations(_Unwrap().visit(_clone(mask_full)))
+    floored_mask = any(isinstance(c_.args[0], ast.Constant) and "[s]" in str(c_.args[0].value) for c_ in calls_in(mask_full, "astype") if c_.args)
     res = {}
     for t1, t2, m in itertools.product(range(3), repeat=3):
-        res[(t1, t2, m)] = bool(Interp({ivname: abs(t1 - t2), pt: t1, st_: t2, mi: m}).ev(mask_u))
+        res[(t1, t2, m)] = bool(Interp({pt: t1, st_: t2, mi: m}).ev(mask_u))
     ok = all(res[k] == (abs(k[0] - k[1]) < k[2]) for k in res) and argok
-    ctx.ob("Collocator._temporal_check.mask", ok, "mask = %s with %s = _get_intervals(primary_time, secondary_time)" % (norm(mask_e), ivname),
+    ctx.ob("Collocator._temporal_check.mask", ok, "mask = %s, i.e. %s" % (norm(mask_e), norm(mask_full)[:160]),
            "|t1 - t2| < max_interval (strictly smaller) on all orderings of (t1, t2, max_interval)", node=rets[0], func=tc,
            witness=None if ok else {"truth table (t1, t2, mi)": {str(k): v for k, v in res.items() if v != (abs(k[0] - k[1]) < k[2])}})
     ctx.models.append({"rule": "C04.temporal", "cases": 27, "symbols": ["t1", "t2", "mi"], "exhaustive": True})
     # the comparison uses the time difference at full resolution: the stored intervals are whole seconds (rule C04.interval), and a
     # difference of 10.7 s floored to 10 s passes a max_interval of 10.5 s
-    gi = ctx.func(COL, "Collocator._get_intervals")
-    floored = any(isinstance(c_.args[0], ast.Constant) and "[s]" in str(c_.args[0].value) for c_ in calls_in(gi.node, "astype") if c_.args)
-    ctx.ob("Collocator._temporal_check.resolution", not (uses_iv and floored), "mask compares %s" % ("the stored intervals (floored to whole seconds)" if uses_iv else "the time difference itself"),
+    ctx.ob("Collocator._temporal_check.resolution", not floored_mask, "mask compares %s" % ("the intervals floored to whole seconds" if floored_mask else "the time difference itself"),
            "|t1 - t2| at the resolution of the time stamps against max_interval: pairs with |dt| >= max_interval are not let through by flooring |dt| first",
-           node=rets[0], func=tc, witness=None if not (uses_iv and floored) else {"|dt|": "10.7 s", "max_interval": "10.5 s", "reported": True})
-    ok2 = isinstance(iv_e, ast.Subscript) and norm(iv_e.value) == ivname and norm(iv_e.slice) == norm(rets[0].value.elts[0])
-    ctx.ob("Collocator._temporal_check.intervals", ok2, "second result = %s" % norm(iv_e), "the intervals filtered by the same mask", node=rets[0], func=tc)
+           node=rets[0], func=tc, witness=None if not floored_mask else {"|dt|": "10.7 s", "max_interval": "10.5 s", "reported": True})
+    # second result: the intervals (as _get_intervals defines them, rule C04.interval) of the pairs the mask lets through; selecting by
+    # the mask commutes with the element-wise steps (difference, abs, cast)
+
+    def lift(e):
+        """(element-wise expression over whole arrays, mask) with `X[mask]` pulled outward through element-wise operations"""
+        if isinstance(e, ast.Subscript) and not isinstance(e.slice, (ast.Slice, ast.Tuple, ast.Constant)):
+            core, m = lift(e.value)
+            if m is None:
+                return core, e.slice
+            raise AnalysisError("_temporal_check: intervals selected twice")
+        if isinstance(e, ast.Call) and isinstance(e.func, ast.Attribute) and e.func.attr == "astype" and len(e.args) == 1 and isinstance(e.args[0], ast.Constant):
+            core, m = lift(e.func.value)
+            new = _clone(e)
+            new.func.value = core
+            return new, m
+        if isinstance(e, ast.Call) and (dotted(e.func) or "").split(".")[-1] in ("abs", "absolute", "fabs") and len(e.args) == 1 and not e.keywords:
+            core, m = lift(e.args[0])
+            new = _clone(e)
+            new.args = [core]
+            return new, m
+        if isinstance(e, ast.BinOp) and isinstance(e.op, ast.Sub):
+            (lc, lm), (rc, rm) = lift(e.left), lift(e.right)
+            if (lm is None) != (rm is None) or (lm is not None and norm(lm) != norm(rm)):
+                raise AnalysisError("_temporal_check: the two times of the intervals are selected differently")
+            return ast.BinOp(left=lc, op=ast.Sub(), right=rc), lm
+        return e, None
+    core, m = lift(iv_full)
+    from ..normalize import _Subst
+    want = [str(norm(_Subst(dict(zip(gi.params, [ast.Name(id=x, ctx=ast.Load()), ast.Name(id=y, ctx=ast.Load())]))).visit(_clone(gi_ret[0].value))))
+            for x, y in ((pt, st_), (st_, pt))]
+    ok2 = m is not None and norm(m) == norm(mask_ret) and str(norm(ast.fix_missing_locations(core))) in want
+    ctx.ob("Collocator._temporal_check.intervals", ok2, "second result = %s, i.e. (%s)[%s]" % (norm(iv_e), norm(core), norm(m) if m is not None else None),
+           "the intervals of (primary_time, secondary_time) as _get_intervals defines them, filtered by the same mask", node=rets[0], func=tc)
     # collocate(): final _create_return
     f = ctx.func(COL, "Collocator.collocate")
     flow = Flow(f)
@@ -683,10 +730,15 @@ def rule_cache(ctx):
     f = ctx.func(COL, "Collocator._spatial_is_cached")
     lat, lon = f.params[1], f.params[2]
     first = f.body[0] if f.body else None
-    okn = isinstance(first, ast.If) and norm(first.test) == "self.index is None" and isinstance(first.body[0], ast.Return) \
-        and norm(first.body[0].value) == "False"
-    ctx.ob("Collocator._spatial_is_cached.none", okn, "first statement: %s" % (norm(first)[:60] if first is not None else None),
-           "no cached index -> False", node=first or f.node, func=f)
+    # without a cached index the answer is False: every return reachable under `self.index is None` is decided False
+    cflow = Flow(f)
+    asm_none = {"self.index is None": True, "self.index is not None": False, "self.index": False, "not self.index": True}
+    rets_n = [r_ for r_ in cflow.stmts if isinstance(r_, ast.Return) and cflow.live_under(r_, asm_none)]
+    vals_n = [(True if r_.value is None else cflow.decide_under(r_.value, asm_none, at=r_)) for r_ in rets_n]
+    vals_n = [None if (r_.value is None) else v_ for r_, v_ in zip(rets_n, vals_n)]
+    okn = bool(rets_n) and all(v_ is False for v_ in vals_n)
+    ctx.ob("Collocator._spatial_is_cached.none", okn, "returns reachable without a cached index: %s" % [str(norm(r_.value))[:50] if r_.value is not None else None for r_ in rets_n],
+           "no cached index -> False (decided before an attribute of the missing index is touched)", node=first or f.node, func=f)
     cmp_calls = calls_in(f.node, ("allclose", "array_equal", "array_equiv"))
     pairs_ = sorted((norm(c.args[0]), norm(c.args[1])) for c in cmp_calls if len(c.args) >= 2)
     want = sorted([(lat, "self.index.lat"), (lon, "self.index.lon")])
